@@ -344,8 +344,8 @@ def _distribute_extra_space(affected_sizes, affected_tracks_types,
 
 
 def _resolve_tracks_sizes(sizing_functions, box_size, children_positions,
-                          implicit_start, direction, gap, context,
-                          containing_block, orthogonal_sizes=None):
+                          direction, gap, context, containing_block,
+                          orthogonal_sizes=None):
     assert direction in 'xy'
     tracks_sizes = []
     # TODO: Check that auto box size is 0 for percentages.
@@ -377,7 +377,7 @@ def _resolve_tracks_sizes(sizing_functions, box_size, children_positions,
         coord, size = (x, width) if direction == 'x' else (y, height)
         if size != 1:
             continue
-        tracks_children[coord - implicit_start].append(child)
+        tracks_children[coord].append(child)
     iterable = zip(tracks_children, sizing_functions, tracks_sizes)
     for children, (min_function, max_function), sizes in iterable:
         if not children:
@@ -448,7 +448,7 @@ def _resolve_tracks_sizes(sizing_functions, box_size, children_positions,
                 if _is_fr(max_function):
                     break
             else:
-                tracks_children[coord - implicit_start].append(child)
+                tracks_children[coord].append(child)
         # 1.2.3.1 For intrinsic minimums.
         # TODO: Respect min-/max-content constraint.
         _distribute_extra_space(
@@ -479,7 +479,7 @@ def _resolve_tracks_sizes(sizing_functions, box_size, children_positions,
                 if _is_fr(max_function):
                     break
             else:
-                tracks_children[coord - implicit_start].append(child)
+                tracks_children[coord].append(child)
         # 1.2.3.5 For intrinsic maximums.
         _distribute_extra_space(
             'max', 'intrinsic', 'min-content', tracks_children,
@@ -987,6 +987,10 @@ def grid_layout(context, box, bottom_space, skip_stack, containing_block,
     for _ in range(len(grid_areas), implicit_y2):
         rows.append(next(auto_rows))
         rows.append([])
+    # Count positions from the first implicit track.
+    children_positions = {
+        child: (x - implicit_x1, y - implicit_y1, width, height)
+        for child, (x, y, width, height) in children_positions.items()}
 
     # 2. Find the size of the grid container.
 
@@ -1010,13 +1014,13 @@ def grid_layout(context, box, bottom_space, skip_stack, containing_block,
 
     # 3.1 Resolve the sizes of the grid columns.
     columns_sizes = _resolve_tracks_sizes(
-        column_sizing_functions, box.width, children_positions, implicit_x1,
-        'x', column_gap, context, box)
+        column_sizing_functions, box.width, children_positions, 'x', column_gap,
+        context, box)
 
     # 3.2 Resolve the sizes of the grid rows.
     rows_sizes = _resolve_tracks_sizes(
-        row_sizing_functions, box.height, children_positions, implicit_y1, 'y',
-        row_gap, context, box, [size for size, _ in columns_sizes])
+        row_sizing_functions, box.height, children_positions, 'y', row_gap,
+        context, box, [size for size, _ in columns_sizes])
 
     # 3.3 Re-resolve the sizes of the grid columns with min-/max-content.
     # TODO: Re-resolve.
@@ -1244,7 +1248,7 @@ def grid_layout(context, box, bottom_space, skip_stack, containing_block,
 
         # TODO: Take care of page fragmentation.
         new_children.append(new_child)
-        if baseline is None and y == implicit_y1:
+        if baseline is None and y == 0:
             baseline = find_in_flow_baseline(new_child)
 
     box = box.copy_with_children(new_children)
